@@ -103,8 +103,10 @@ Bypass(a, size, bs) ==                                                        \*
   /\ a.lim # NoLimit /\ size < a.lim /\ bs >= size
   /\ a.lim < DEFAULT /\ AllocatedBytes(a) = 0
 
-\* does the from_fn closure yield for base size bs?
-Yields(a, size, bs) == bs >= MinNewChunk(size) \/ Bypass(a, size, bs)         \* 2028
+\* does the from_fn closure yield for base size bs?  (bs = -1: the zero candidate was already offered)
+Yields(a, size, bs) == bs >= 0 /\ (bs >= MinNewChunk(size) \/ Bypass(a, size, bs))
+\* next base size: halving, and the zero-sized candidate is offered only once
+Halve(bs) == IF bs = 0 THEN -1 ELSE bs \div 2
 
 \* commit of a granted chunk (new_chunk 879-938 + 2056)
 NewChunk(a, det, base) ==
@@ -125,14 +127,14 @@ SlowLoop(a, size, align, rem, bs, answers, reqs, fuel) ==
   ELSE IF ~Yields(a, size, bs) THEN [ok |-> FALSE, reqs |-> reqs, a |-> a, exhausted |-> FALSE]
   ELSE LET det == Details(a.ma, bs, size, align) IN
        IF ~FitsLimit(rem, det)
-       THEN SlowLoop(a, size, align, rem, bs \div 2, answers, reqs, fuel - 1)
+       THEN SlowLoop(a, size, align, rem, Halve(bs), answers, reqs, fuel - 1)
        ELSE LET k == Len(reqs) + 1
                 req == <<det.size, det.align>>
             IN IF k > Len(answers)
                THEN \* the trace has no answer for this request
                     [ok |-> FALSE, reqs |-> Append(reqs, req), a |-> a, exhausted |-> TRUE]
                ELSE IF answers[k] = 0
-               THEN SlowLoop(a, size, align, rem, bs \div 2, answers, Append(reqs, req), fuel - 1)
+               THEN SlowLoop(a, size, align, rem, Halve(bs), answers, Append(reqs, req), fuel - 1)
                ELSE [ok |-> TRUE, reqs |-> Append(reqs, req),
                      a |-> [a EXCEPT !.ch = Append(a.ch, NewChunk(a, det, answers[k]))],
                      exhausted |-> FALSE]
